@@ -41,6 +41,9 @@ inductive Stage where
   | debounce (d : Nat) (alive : Bool) (trailing : Option Val) (handler : Option TaskId)
   /-- throttle: slot, trailing value, task handle (none = the initial finished handle). -/
   | throttle (d : Nat) (edge : Edge) (alive : Bool) (trailing : Option Val) (handler : Option TaskId)
+  /-- throttle in the middle of `next`: the leading item is being delivered, the
+      window task has not been scheduled yet. -/
+  | throttleW (d : Nat) (edge : Edge) (alive : Bool) (trailing : Option Val)
   /-- buffer_with_time / buffer_with_count_and_time: the shared buffer cell and the flush task. -/
   | bufTime (d : Nat) (count : Option Nat) (alive : Bool) (data : List Val) (task : Option TaskId)
 
@@ -53,6 +56,7 @@ def fin : List Stage → Bool
   | .subscribeOn _ _ :: r => fin r
   | .debounce _ alive _ _ :: r => !alive || fin r
   | .throttle _ _ alive _ _ :: r => !alive || fin r
+  | .throttleW _ _ alive _ :: r => !alive || fin r
   | .bufTime _ _ alive _ _ :: r => !alive || fin r
 
 def flushBuf (data : List Val) : List Notif :=
@@ -92,8 +96,9 @@ def Stage.onNotif (st : Stage) (j : Nat) (n : Notif) (s : Sched) : Stage × List
         -- after `fix: throttle … lone item twice`: the item just emitted on the
         -- leading edge is not also the trailing candidate
         let tr2 := if edge.hasLeading then none else tr1
-        let (s1, h) := s.scheduleOnce (.throttle j) (some d)
-        (.throttle d edge alive tr2 (some h), out, s1)
+        -- the window task is scheduled AFTER the leading emission has gone
+        -- downstream: see `Stage.afterEmit` (handler `none` + `windowDue`)
+        (.throttleW d edge alive tr2, out, s)
       else (.throttle d edge alive tr1 handler, [], s)
   | .throttle d edge alive tr handler, .error e =>
       (.throttle d edge false tr handler, if alive then [.error e] else [],
@@ -102,6 +107,7 @@ def Stage.onNotif (st : Stage) (j : Nat) (n : Notif) (s : Sched) : Stage × List
       (.throttle d edge false none handler,
         if alive then (match tr with | some v => [.next v] | none => []) ++ [.complete] else [],
         match handler with | some h => s.cancel h | none => s)
+  | .throttleW d edge alive tr, _ => (.throttleW d edge alive tr, [], s)   -- unreachable (no re-entrancy)
   -- buffer_with_time / buffer_with_count_and_time -----------------------------------
   | .bufTime d cnt alive data task, .next v =>
       if alive then
@@ -117,22 +123,33 @@ def Stage.onNotif (st : Stage) (j : Nat) (n : Notif) (s : Sched) : Stage × List
   | .bufTime d cnt alive data task, .complete =>
       (.bufTime d cnt false [] task, if alive then flushBuf data ++ [.complete] else [], s)
 
-/-- Feed a list of notifications into one stage. -/
-def Stage.onNotifs (st : Stage) (j : Nat) : List Notif → Sched → Stage × List Notif × Sched
-  | [], s => (st, [], s)
-  | n :: r, s =>
-    let (st1, o1, s1) := st.onNotif j n s
-    let (st2, o2, s2) := Stage.onNotifs st1 j r s1
-    (st2, o1 ++ o2, s2)
+/-- What a stage still has to do once the notification it passed on has been
+    fully processed downstream. -/
+def Stage.afterEmit (st : Stage) (j : Nat) (s : Sched) : Stage × Sched :=
+  match st with
+  | .throttleW d edge alive tr =>
+      let (s1, h) := s.scheduleOnce (.throttle j) (some d)
+      (.throttle d edge alive tr (some h), s1)
+  | st => (st, s)
 
 /-- Push notifications through the stages starting at index `j` (the head of
-    `stages`); returns what reaches the probe. -/
-def cascade : List Stage → Nat → List Notif → Sched → List Stage × List Notif × Sched
-  | [], _, ns, s => ([], ns, s)
-  | st :: rest, j, ns, s =>
-    let (st1, outs, s1) := st.onNotifs j ns s
-    let (rest1, out, s2) := cascade rest (j + 1) outs s1
-    (st1 :: rest1, out, s2)
+    `stages`), one notification at a time and depth first, exactly like the
+    nested synchronous calls; returns what reaches the probe.  (`fuel` bounds the
+    recursion depth; callers pass more than stages × notifications.) -/
+def cascadeF : Nat → List Stage → Nat → List Notif → Sched → List Stage × List Notif × Sched
+  | 0, stages, _, _, s => (stages, [], s)
+  | _ + 1, [], _, ns, s => ([], ns, s)
+  | _ + 1, st :: rest, _, [], s => (st :: rest, [], s)
+  | f + 1, st :: rest, j, n :: ns, s =>
+    let (st1, outs, s1) := st.onNotif j n s
+    let (rest1, out1, s2) := cascadeF f rest (j + 1) outs s1
+    let (st2, s3) := st1.afterEmit j s2
+    let (stages2, out2, s4) := cascadeF f (st2 :: rest1) j ns s3
+    (stages2, out1 ++ out2, s4)
+
+def cascade (stages : List Stage) (j : Nat) (ns : List Notif) (s : Sched) :
+    List Stage × List Notif × Sched :=
+  cascadeF ((stages.length + 1) * (ns.length + 8) * 64 + 1000) stages j ns s
 
 /-- The world of one `time` case. -/
 structure TW where
@@ -144,6 +161,7 @@ structure TW where
   srcTask : Option TaskId := none   -- interval / timer: their task handle
   terminated : List Nat := []       -- subjects whose observer list was taken
   subscribed : Bool := false        -- the case's `sub` has happened
+  unsubscribed : Bool := false      -- … and its `unsub`
   log : List Notif := []
 
 namespace TW
@@ -300,6 +318,34 @@ def unsubFrom (w : TW) : Nat → TW
         unsubFrom { w with sched := w.sched.cancel h } j
     | _ => unsubFrom w j       -- op1, throttle: the source's subscription
 
+/-- `is_closed()` of the subscription returned for stages `0..j` and the source. -/
+def isClosedFrom (w : TW) : Nat → Bool
+  | 0 =>
+      match w.src, w.srcTask with
+      | .hot _, _ => !w.srcAlive
+      | .cold (.create _), _ => !w.srcAlive
+      | .cold _, _ => true
+      | _, some h => w.sched.handleClosed h       -- TaskHandle<NormalReturn>: the task has produced its value
+      | _, none => false
+  | j + 1 =>
+    match w.stages[j]? with
+    | some (.delay _ _ multi) =>
+        -- ZipSubscription(source, MultiSubscription): None, or every handle closed (vacuously when empty)
+        isClosedFrom w j && (multi.getD []).all w.sched.handleClosed
+    | some (.observeOn _ multi) =>
+        isClosedFrom w j && (multi.getD []).all w.sched.handleClosed
+    | some (.subscribeOn _ (some h)) =>
+        -- TaskHandle<SubscribeReturn<U>>: the stored subscription's answer, false while there is none
+        if w.sched.handleClosed h then isClosedFrom w j else false
+    | some (.subscribeOn _ none) => false
+    | some (.debounce _ _ _ handler) => isClosedFrom w j && handler.isNone
+    | some (.bufTime _ _ _ _ (some h)) => w.sched.handleClosed h && isClosedFrom w j
+    | _ => isClosedFrom w j
+
+/-- What the case's handle answers (it is consumed by `unsub`). -/
+def isClosed (w : TW) : Bool :=
+  if !w.subscribed || w.unsubscribed then true else isClosedFrom w w.stages.length
+
 inductive Ev where
   | sub
   | emit (i : Nat) (n : Notif)
@@ -327,7 +373,9 @@ def step (w : TW) : Ev → TW
               if fin w.stages then w1 else { w1 with srcAlive := false }.push 0 [n]
           else w1
         | _ => w1
-  | .unsub => if w.subscribed then unsubFrom w w.stages.length else w
+  | .unsub =>
+      if w.subscribed && !w.unsubscribed then { unsubFrom w w.stages.length with unsubscribed := true }
+      else w
   | .adv d => { w with sched := { w.sched with now := w.sched.now + d } }
   | .fire i =>
       match w.sched.dueTimers[i]? with
